@@ -13,7 +13,8 @@ def generate(tier, rng):
     from ..spec import VSpec
     for j, e in enumerate(enums):
         if j % 5 == 2 and not e.cis:
-            e.variants.append(VSpec(ident='FwdInner', kind='tuple', ftypes=['StaticStr'], tr=True))
+            # (at the end, or in the middle: what stands AFTER a forwarding variant is named like everything else)
+            e.variants.insert(len(e.variants) if j % 10 == 2 else 1, VSpec(ident='FwdInner', kind='tuple', ftypes=['StaticStr'], tr=True))
             e.extra['shape'] = e.extra.get('shape', '') + ' +transparent'
     from .. import strcorpus
     from ..spec import ESpec
@@ -24,6 +25,17 @@ def generate(tier, rng):
                       VSpec(ident='Alias', ser=['FooBar' if style is None else 'foo_bar']), VSpec(ident='Twin', ser=['High' if style is None else 'high'])]
         e.extra['shape'] = 'duplicate canonical names'
         e.extra['no_noise'] = True
+        enums.append(e)
+    # ORDER: ordinary variants standing after a transparent, a default, a disabled variant - with and without prefix / style
+    for j, (style, pfx) in enumerate([(None, None), (None, 'colour/'), ('kebab-case', 'p.'), ('SCREAMING_SNAKE_CASE', None)]):
+        e = ESpec(id='c03ord%d' % j, name='EnC03ord%d' % j, style=style, prefix=pfx, derives=list(derives), feats=['names', 'vnames'])
+        e.variants = [VSpec(ident='FirstOne'), VSpec(ident='Fwd', kind='tuple', ftypes=['StaticStr'], tr=True), VSpec(ident='AfterFwd'),
+                      VSpec(ident='CatchAll', kind='tuple', ftypes=['String'], default=True), VSpec(ident='AfterDefault'),
+                      VSpec(ident='WithTs', ts='shown'), VSpec(ident='Off', dis=True, ser=['off-name']), VSpec(ident='AfterOff', kind='named', ftypes=['u8'], fnames=['x'], fdw=[None]),
+                      VSpec(ident='DefaultWithTs', kind='tuple', ftypes=['String'], dis=True, default=True, ts='dts'), VSpec(ident='LastOne', ser=['l', 'last-one'])]
+        e.extra['shape'] = 'order: after transparent / default / disabled'
+        if j % 2:
+            e.extra['no_noise'] = True
         enums.append(e)
     # the empty string is a name like any other
     for j, pfx in enumerate((None, 'p:')):
